@@ -506,7 +506,7 @@ def run_check(cid, tier, replay=None, build_only=False):
         if r is not None:
             print("INCONCLUSIVE run rc=%s timed_out=%s\n%s" % (r.rc, r.timed_out, tail(r.out, 40)))
         return 2
-    if not replay and (cov["evaluations"] < 1 or cov["distinct_nontrivial"] < 2):
+    if not replay and (cov["evaluations"] < 1 or cov["distinct_nontrivial"] < 2 or not cov["samples"]):
         print("INCONCLUSIVE: vacuous run (evaluations=%d distinct_nontrivial=%d)" % (cov["evaluations"], cov["distinct_nontrivial"]))
         return 2
     return 0
